@@ -29,7 +29,7 @@ MODEL = {
     "C12": "Model/Proto3.lean, Model/Pb.lean; Lemmas/Pb.lean, Proto3.lean (wire level), PbBytes.lean (message level), Itoa.lean",
     "C13": "Model/Rule.lean (+ Model/Schedule.lean); Lemmas/Rule.lean",
     "C14": "Model/Schedule.lean, Spec/Window.lean; Lemmas/Schedule.lean",
-    "C15": "Model/Export.lean on the store model; Lemmas/Export.lean, ExportStore.lean (SendNode of exported nodes on the store model), ExportTree.lean and ExportForest.lean (the exported file is the traversal of its own tree), ExportTime.lean (a file without time stamps)",
+    "C15": "Model/Export.lean on the store model; Lemmas/Export.lean, ExportStore.lean (SendNode of exported nodes on the store model), ExportTree.lean and ExportForest.lean (the exported file is the traversal of its own tree), ExportTime.lean (a file without time stamps), StoreRows.lean (what every stored row looks like: the premises on the exported records hold on every reachable store)",
     "C16": "Model/Cobs.lean; Lemmas/Cobs, CobsReader, CobsStream",
     "C17": "Model/Serial.lean, Model/Crc16.lean; Lemmas/Crc16, Crc16Order, Crc16Detect, Bits, Serial, SubjectSafe",
     "C18": "Model/Modbus.lean, Spec/ModbusSpec.lean; Lemmas/Modbus, ModbusConforms",
